@@ -221,13 +221,18 @@ def serialSetup (t : Termios) (p : Params) : Option Termios := (serialSetupE t p
 def ptyKeeps (t : Termios) : Termios :=
   { t with iflag := clr t.iflag IBAUD0, cflag := clr (clr t.cflag ADDRB) (CSIZE ||| PARENB) ||| (CS8 ||| CREAD) }
 
-/-- what the kernel compares: the `c_ispeed`/`c_ospeed` members and `IBAUD0` are glibc's -/
-def kernelView (t : Termios) : Termios := { t with ispeed := 0, ospeed := 0, iflag := clr t.iflag IBAUD0 }
-
-/-- `tcsetattr` on a pseudo-terminal fails with `EINVAL` when it asked for a change and, size and parity not being kept,
-    nothing changed (observed on the test platform, Linux 6.18 / glibc 2.36).  Test platform only. -/
+/-- `tcsetattr` of Debian's glibc 2.36 on a pseudo-terminal (its `tcsetattr` reads the settings before and after the
+    `TCSETS`): it fails with `EINVAL` exactly when none of the four flag words changed (the control characters do not count)
+    **and** the kernel did not keep `PARENB`/`CREAD` as asked, or a non-zero `CSIZE` as asked — which on a pty (`ptyKeeps`: `CS8`,
+    no parity, `CREAD` forced) means: 6 or 7 data bits (`CS5` is 0 and passes), parity, or a cleared `CREAD` were
+    asked for.  `cur`: the state of the slave (as the kernel holds it), `asked`: what is handed to `tcsetattr`.  The `TCSETS`
+    itself has been carried out (control characters included) when this is reported.  Checked against the test platform
+    (Linux 6.18 / glibc 2.36-9+deb12u14) on 30 000 random pairs; test platform only, a real port keeps size and parity. -/
 def ptyRefuses (cur asked : Termios) : Bool :=
-  kernelView (ptyKeeps asked) == kernelView cur && kernelView asked != kernelView cur
+  let new := ptyKeeps asked
+  (new.iflag == cur.iflag && new.oflag == cur.oflag && new.cflag == cur.cflag && new.lflag == cur.lflag) &&
+  ((asked.cflag &&& (PARENB ||| CREAD)) != (new.cflag &&& (PARENB ||| CREAD)) ||
+   ((asked.cflag &&& CSIZE) != 0 && (asked.cflag &&& CSIZE) != (new.cflag &&& CSIZE)))
 
 /-- `cfgetospeed` / `cfgetispeed` of glibc 2.36 -/
 def cfgetospeed (t : Termios) : Nat := t.cflag &&& CBAUD
